@@ -109,6 +109,15 @@ Theorem C15_encoder_reset_fixed_is_fresh : forall e, enc_reset_fixed e = enc_fre
 Proof. exact reset_fixed_is_fresh. Qed.
 Print Assumptions C15_encoder_reset_fixed_is_fresh.
 
+(* in_cdata, in_content, cdata (and indent for the repaired reset) are cleared whatever the state was — in particular
+   in_cdata does not depend on the cdata buffer, which XML output never allocates *)
+Theorem C15_encoder_reset_clears_cdata_flags : forall e,
+  (e_in_cdata (enc_reset e) = false /\ e_in_content (enc_reset e) = false /\ e_cdata (enc_reset e) = None) /\
+  (e_in_cdata (enc_reset_fixed e) = false /\ e_in_content (enc_reset_fixed e) = false /\ e_cdata (enc_reset_fixed e) = None /\
+   e_indent (enc_reset_fixed e) = 0).
+Proof. exact reset_clears_cdata_flags. Qed.
+Print Assumptions C15_encoder_reset_clears_cdata_flags.
+
 (* any history of setter calls and (set tree, encode, reset) rounds on ONE encoder: each tree gives the result it
    gives on a newly created encoder carrying the caller's settings; the settings are the caller's; for every body *)
 Theorem C15_encoder_history_fixed : forall (tree out : Type) t_id t_lang t_charset
